@@ -367,9 +367,9 @@ pub fn run(a: &Args) {
         // all C19 cases are cheap: a replay re-runs the whole finite enumeration
     }
     let mut r = Rep::new("C19", "constants+codecs");
-    consts(&mut r);
-    codecs(&mut r);
-    dr7(&mut r);
+    guarded(&mut r, "C19|constants|unexpected-panic", || "consts".into(), |r| consts(r));
+    guarded(&mut r, "C19|codecs|unexpected-panic", || "codecs".into(), |r| codecs(r));
+    guarded(&mut r, "C19|Dr7Value|unexpected-panic", || "dr7".into(), |r| dr7(r));
     r.nontrivial = r.evals;
     r.exhaustive = true;
     r.sample("flag Cr4Flags PCID == 1<<17".into());
